@@ -28,6 +28,9 @@ type C06Case struct {
 	Order  []HalfRef `json:"order"`
 	Gated  bool      `json:"gated"`
 	OchCap int       `json:"och_cap"`
+	// BaseKey is the callback ID of the unidirectional base streams ("" = "K");
+	// small numbers look like the per-request counters of /io requests.
+	BaseKey string `json:"base_key,omitempty"`
 }
 
 func alternates(order []HalfRef) bool {
@@ -72,16 +75,20 @@ func newIO(w *World) *Attempt {
 
 // setupBase brings the broker into the base state with unidirectional
 // attempts using key "K"; returns them.
-func setupBase(w *World, base string) (uin, uout *Attempt, problem string) {
+func setupBase(w *World, base string, keys ...string) (uin, uout *Attempt, problem string) {
+	key := "K"
+	if len(keys) > 0 && keys[0] != "" {
+		key = keys[0]
+	}
 	admit := func(a *Attempt, dir string) bool { return a.Admit(dir) == "attached" }
 	switch base {
 	case "idle":
 	case "full", "teardown":
-		uin = w.Arrive(KIn, "K", &Writer{Kind: "flusher"}, nil)
+		uin = w.Arrive(KIn, key, &Writer{Kind: "flusher"}, nil)
 		if !admit(uin, "input") {
 			return nil, nil, "base input not attached"
 		}
-		uout = w.Arrive(KOut, "K", nil, NewReader())
+		uout = w.Arrive(KOut, key, nil, NewReader())
 		if !admit(uout, "output") {
 			return nil, nil, "base output not attached"
 		}
@@ -101,12 +108,12 @@ func setupBase(w *World, base string) (uin, uout *Attempt, problem string) {
 			}
 		}
 	case "half-in":
-		uin = w.Arrive(KIn, "K", &Writer{Kind: "flusher"}, nil)
+		uin = w.Arrive(KIn, key, &Writer{Kind: "flusher"}, nil)
 		if !admit(uin, "input") {
 			return nil, nil, "base input not attached"
 		}
 	case "half-out":
-		uout = w.Arrive(KOut, "K", nil, NewReader())
+		uout = w.Arrive(KOut, key, nil, NewReader())
 		if !admit(uout, "output") {
 			return nil, nil, "base output not attached"
 		}
@@ -134,7 +141,7 @@ func runC06(c C06Case) (o c06Out) {
 			o.key, o.what = "HARNESS", strings.Join(probs, "; ")
 		}
 	}()
-	uin, uout, prob := setupBase(w, c.Base)
+	uin, uout, prob := setupBase(w, c.Base, c.BaseKey)
 	if prob != "" {
 		return c06Out{key: "HARNESS", what: prob}
 	}
@@ -332,6 +339,9 @@ var c06Bases = []string{"idle", "full", "half-in", "half-out", "teardown"}
 func c06Record(c C06Case, o c06Out) {
 	canon, _ := json.Marshal(c)
 	cl := []string{"base-" + c.Base, fmt.Sprintf("n=%d", c.N)}
+	if c.BaseKey != "" {
+		cl = append(cl, "base-id-looks-like-a-request-number")
+	}
 	if staggered(c.Order) {
 		cl = append(cl, "staggered-arrival")
 	}
@@ -379,6 +389,9 @@ func TestC06Orders(t *testing.T) {
 					continue
 				}
 				c := C06Case{N: n, Base: base, Order: orderFromPerm(p), Gated: true, OchCap: []int{0, 1, 1024}[idx%3]}
+				if base != "idle" {
+					c.BaseKey = []string{"", "1", "2", "3"}[(idx/5)%4]
+				}
 				o := runC06(c)
 				c06Record(c, o)
 				if o.key == "HARNESS" {
@@ -447,6 +460,9 @@ func TestC06Sampled(t *testing.T) {
 			Base:   rapid.SampledFrom(c06Bases).Draw(rt, "base"),
 			Gated:  rapid.IntRange(0, 2).Draw(rt, "gated") != 0,
 			OchCap: rapid.SampledFrom([]int{0, 1, 4, 1024}).Draw(rt, "ochcap"),
+		}
+		if c.Base != "idle" {
+			c.BaseKey = rapid.SampledFrom([]string{"", "", "1", "2", "3", "4", "01"}).Draw(rt, "basekey")
 		}
 		if c.Gated {
 			idx := make([]int, 2*c.N)
